@@ -15,6 +15,7 @@ func init() {
 		ID:    "C01",
 		Level: "exploration",
 		Rule: "cases = generated worlds of 1-4 mutually calling gadget programs x 6 entry points x forks Frontier..Shanghai x extra-EIP subsets x calldata/value/gas classes (plus, thorough, every binary opcode x boundary operand pairs x every fork); " +
+			"kinds runtime / hostctx: vm/runtime's Execute, Call and Create (explicit and default configurations) and core/evm.go's NewEVMBlockContext, NewEVMTxContext, GetHashFn (answers and number of header reads), CanTransfer and Transfer against their upstream originals; " +
 			"each case runs go-ethereum v1.12.0 once and the fork in 4 configurations (debug tracer off/on x join points off/on with nothing bound) and compares return data, error class, leftover gas, logs, refund, self-destruct set and state root; " +
 			"distinct_nontrivial = distinct (opcode, depth, error-class) step-sequence shapes of in-domain executions that executed at least 3 instructions",
 		Assumptions: []string{
@@ -39,6 +40,17 @@ func init() {
 			}
 			for i := 0; i < nt; i++ {
 				cs = append(cs, Case{Kind: "tree", Seed: h.Mix(seed, 0xC01A, uint64(i))})
+			}
+			// the convenience entry points of vm/runtime and the host-side constructors of core/evm.go
+			nr := 400
+			if !quick(tier) {
+				nr = 10000
+			}
+			for i := 0; i < nr; i++ {
+				cs = append(cs, Case{Kind: "runtime", Seed: h.Mix(seed, 0xC01B, uint64(i))})
+			}
+			for i := 0; i < nr/40; i++ {
+				cs = append(cs, Case{Kind: "hostctx", Seed: h.Mix(seed, 0xC01C, uint64(i))})
 			}
 			// every DUPn / SWAPn / LOGn / PUSHn at the stack heights around its declared minimum and maximum
 			for _, f := range []h.Fork{h.Frontier, h.Shanghai} {
@@ -154,6 +166,10 @@ func dualCompare(res *CaseResult, dc DualCase, cfgs []forkCfg) (inDomain bool) {
 
 func runC01(c Case, tier string) (res CaseResult) {
 	switch c.Kind {
+	case "runtime":
+		runC01Runtime(c, &res)
+	case "hostctx":
+		runC01HostCtx(c, &res)
 	case "gen":
 		dc := genDual(c.Seed, h.Shanghai, nil)
 		if c.Seed%97 == 0 {
